@@ -230,3 +230,59 @@ MANIFEST_TEXT_EXTRA['C11'] = {'design_ref': 'DESIGN.md 4 C11',
          'propext/Classical.choice/Quot.sound only. Model tied to the code by ~3.3*10^5 (quick) operation lines per run over all 40 encodings and lengths '
          '0..4096 with the first offending unit at every position mod 64; the same inputs (4.9*10^5 oracle evaluations incl. encode) are compared with the '
          'streaming API in one call and in 7-byte chunks, with Cow variant and pointer identity.'}
+
+# ---------------------------------------------------------------------------
+# C12 (sub-agent contribution).  The ENC_* strings are those of tools/props.py
+# (copied: `from props import ...` here would be circular).
+
+_C12_ENC_RULE = "histories of Encoder calls generated by harness/src/enc.rs: per encoding (all 40) seeded texts over an 88-character class alphabet (controls, ASCII punctuation, U+00A5/U+203E/U+2212, kana, half-width katakana, kanji mapped and unmapped, hangul, PUA incl. the GB18030-2022 code points, astral mapped/unmapped, U+10FFFF) plus random scalars and (UTF-16 source) unpaired surrogates; cuts at character boundaries incl. empty chunks and an empty final chunk; capacities cycling through {min, min+1..min+10, 20, 24, 64, 1000} (min = 4 raw, 14 with replacement); UTF-8 and UTF-16 sources; raw and with-replacement; one operation line = one whole history; non-trivial = at least two calls or a non-InputEmpty result"
+_C12_ENC_TRIVIAL = r"^enc \S+ \S+ \S+ \S+ (\.|n=\d+,c=\d+,l=[01],r=I,rd=\d+,w=[^;]*) => "
+_C12_ENC_CORR = "enc: every call of every generated history is admissible for the model (Model.ecall / Model.encRepl over the per-character step functions of Model/EncFam.lean with some stop budget; bytes, read, result, has_pending_state and had_unmappables must match; state followed through the history)"
+_C12_ENC_TRUSTED = [
+    "relational call model for encoders (stop budget constrained by EAdmissible); per-character step functions hand-modelled over the regenerated tables and validated exhaustively (all 1,112,064 scalars x 40 encodings, ENCCHAR sweep)",
+]
+
+_C12_NATIVE = (
+    ["big5_bmp_%d" % i for i in range(5)] + ["big5_astral"]
+    + [v + s for v in ("eucJp", "eucKr", "shiftJis", "gbk", "gb18030", "utf8", "userDefined") for s in ("_bmp", "_astral")]
+    + ["single_bmp"]
+    + ["iso_%s_%s" % (st, k) for st in ("ascii", "roman", "jis0208") for k in ("0", "1", "2", "3", "4", "5", "astral")]
+)
+
+PROPS_EXTRA["C12"] = {
+    "thm_modules": ["EncodingRs.Thm.C12"],
+    "harness_cfgs": ["default"],
+    "generated": [
+        "Gen.Encodings (the 40 Encoding initialisers: IsEnc, sbParams)",
+        "Gen.SingleByte (every single-byte table: encode then decode re-evaluated for the whole BMP, single_bmp)",
+        "Gen.Tables{Big5,Jis,Korean,Gb} (+Gated) and Gen.TablesMisc (GB18030_2022_OVERRIDE_PUA / _BYTES, ISO_2022_JP_HALF_WIDTH_TRAIL): encoder lookup then decoder lookup re-evaluated for every scalar value by the checkRange / isoCheckRange obligations of Lemmas/RT/*.lean",
+    ],
+    "correspondences": [
+        _C12_ENC_CORR,
+        "C12 oracle of harness/src/enc.rs on every generated history: after every call the bytes so far (NCR appended after an Unmappable) decode with the real decoder of the output encoding without Malformed; has_pending_state() = (escape state implied by the bytes emitted != ASCII) for ISO-2022-JP and false otherwise; a complete history ends in the ASCII state and decodes to the per-character round trip of the text with NCRs",
+    ],
+    "rule": _C12_ENC_RULE + "; the round-trip theorems are additionally discharged over ALL scalar values (x 3 encoder states for ISO-2022-JP) inside Lean",
+    "trivial_re": _C12_ENC_TRIVIAL,
+    "trusted": _C12_ENC_TRUSTED + [
+        "native_decide (Lean compiler + IR evaluation) for the 42 finite per-character obligations of lean/EncodingRs/Lemmas/RT/*.lean: EncodingRs.Lemmas.RoundTrip.<n>._native.native_decide.ax_1_1 for <n> in " + ", ".join(_C12_NATIVE),
+        "decoder side: the per-byte transition functions of Model/Fam/*.lean (hand models tied to the code by the dec correspondence of C02) and the reference decoding semantics Model.ref",
+        "numeric character reference: Model.ncr (= write_ncr of lib.rs, tied by the enc correspondence of with-replacement histories)",
+    ],
+    "assumptions": [
+        "the text is a list of Unicode scalar values (what both source forms deliver: Utf8Source on &str, Utf16Source with unpaired surrogates read as U+FFFD, see C04)",
+        "v ranges over the variants of the 40 Encoding initialisers of lib.rs (IsEnc); UTF-16BE/LE and replacement encode as UTF-8 (output_encoding) and are decoded with the UTF-8 decoder",
+        "the byte stream is the one produced with replacement (encode_from_utf8/utf16): every Unmappable(u) of the raw encoder is followed by ncr u (subst); with the raw API the caller is responsible for what is written after an Unmappable",
+        "model follows the code after the repair of finding F1",
+    ],
+    "partial": [
+        "the theorems are about the chunk-free reference run eref of the encoder model; that EVERY call history (any cuts, capacities, stop between an ISO-2022-JP escape and its character) emits exactly a byte prefix of that run is C04 (enc_history_eq_ref, raw API) - byte_prefix_decodes_clean covers every byte prefix; the lift of C04 through the NCR wrapper encRepl is covered by the enc correspondence + the C09/C12 oracles, not yet by a theorem",
+        "has_pending_iff / final_ascii are stated on the model state after a text prefix (erefOpen); has_pending_state() of the implementation is tied to the model state by the enc correspondence after every call",
+    ],
+}
+
+MANIFEST_TEXT_EXTRA["C12"] = {
+    "text": "Theorems enc_dec_roundtrip, prefix_decodes_clean(_complete), byte_prefix_decodes_clean, iso2022jp_state_inv, has_pending_iff, final_ascii, folds_exact (Thm/C12.lean): for each of the 40 encodings and EVERY text of scalar values, the complete with-replacement output of the encoder model, decoded with the reference semantics of the decoder of the output encoding, yields without any error event exactly the text with each unmappable character replaced by the NCR the encoder reported (U+FFFD for SO/SI/ESC in ISO-2022-JP) and every other character c replaced by fold v c; the same holds for the bytes of every text prefix and for every byte prefix of the output followed by anything (so at every call boundary, also between an escape sequence and its character); for ISO-2022-JP the encoder state equals the escape state of the decoder that has read the bytes so far (Corr), has_pending_state <-> that state is not ASCII, and the complete output ends in ASCII; fold v c != c exactly for U+00A5, U+203E (EUC-JP, Shift_JIS), U+2212 (EUC-JP, Shift_JIS, ISO-2022-JP), U+FF61..U+FF9F (ISO-2022-JP, to the full-width forms) and the 18 GB18030-2022 PUA code points (GBK, gb18030; PUA -> the standard character the 2022 decoder assigns to the bytes written: U+E78D..E796 -> U+FE10,FE12,FE11,FE13..FE19; U+E81E,E826,E82B,E82C,E832,E843,E854,E864 -> U+9FB4..9FBB). Proof: generic feedAll_ref (bytes accepted step by step = ref, in front of any continuation) + induction over the text from per-character facts that are evaluated completely by native_decide over the regenerated tables: all 1,112,064 scalar values per stateless encoder, and all 3 x 1,112,064 (encoder state, scalar) pairs for ISO-2022-JP from the canonical decoder states, lifted to every corresponding decoder state by isoFeed_eqv (the decoder cannot observe a stale lead byte). Tied to the code by the enc correspondence and the C12 oracle (real decoder over the real encoder's output after every call).",
+    "design_ref": "DESIGN.md 3.4, 4 C12",
+    "note": "Trusted additionally: native_decide for 42 finite per-character obligations (listed in the evidence); the decoder families and ncr are hand models tied by the dec / enc correspondences. The theorem is about the reference run of the model; call histories are connected to it by C04 (raw API) and by the correspondence run (NCR wrapper).",
+    "technique": "Lean 4 proof (generic decoder-acceptance lemma + induction over the text + complete finite evaluation of every per-character encode/decode pair over the regenerated tables, state-correspondence invariant for ISO-2022-JP) + differential correspondence + real-decoder oracle",
+}
